@@ -65,12 +65,23 @@ func c09Peers(ps []*metapb.Peer) string {
 	}
 	return strings.Join(s, "/")
 }
-func c09Desc(meta *metapb.Region, leader *metapb.Peer) string {
+func c09Bk(b *metapb.Buckets) string {
+	if b == nil {
+		return "-"
+	}
+	ks := make([]string, len(b.Keys))
+	for i, k := range b.Keys {
+		ks[i] = c09hx(k)
+	}
+	return fmt.Sprintf("%d#%s", b.Version, strings.Join(ks, "/"))
+}
+func c09Desc(meta *metapb.Region, leader *metapb.Peer) string { return c09DescB(meta, leader, nil) }
+func c09DescB(meta *metapb.Region, leader *metapb.Peer, bk *metapb.Buckets) string {
 	if meta == nil {
 		return "none"
 	}
-	return fmt.Sprintf("%d,%s,%s,%d,%d,%s,%d:%d", meta.GetId(), c09hx(meta.GetStartKey()), c09hx(meta.GetEndKey()),
-		meta.GetRegionEpoch().GetVersion(), meta.GetRegionEpoch().GetConfVer(), c09Peers(meta.GetPeers()), leader.GetId(), leader.GetStoreId())
+	return fmt.Sprintf("%d,%s,%s,%d,%d,%s,%d:%d,%s", meta.GetId(), c09hx(meta.GetStartKey()), c09hx(meta.GetEndKey()),
+		meta.GetRegionEpoch().GetVersion(), meta.GetRegionEpoch().GetConfVer(), c09Peers(meta.GetPeers()), leader.GetId(), leader.GetStoreId(), c09Bk(bk))
 }
 func c09Descs(rs []*router.Region) string {
 	if len(rs) == 0 {
@@ -78,7 +89,7 @@ func c09Descs(rs []*router.Region) string {
 	}
 	s := make([]string, len(rs))
 	for i, r := range rs {
-		s[i] = c09Desc(r.Meta, r.Leader)
+		s[i] = c09DescB(r.Meta, r.Leader, r.Buckets)
 	}
 	return strings.Join(s, ";")
 }
@@ -134,8 +145,8 @@ func c09Dump(c *RegionCache) string {
 		for i, x := range r.getStore().storeEpochs {
 			eps[i] = fmt.Sprint(x)
 		}
-		ents = append(ents, fmt.Sprintf("%s,%s,%s,%d,%d,%d,%d,%s,%s", c09Ver(r.VerID()), c09hx(r.StartKey()), c09hx(r.EndKey()),
-			int(r.getStore().workTiKVIdx), exp, atomic.LoadInt32((*int32)(&r.invalidReason)), fl, c09Peers(r.meta.Peers), strings.Join(eps, "/")))
+		ents = append(ents, fmt.Sprintf("%s,%s,%s,%d,%d,%d,%d,%s,%s,%s", c09Ver(r.VerID()), c09hx(r.StartKey()), c09hx(r.EndKey()),
+			int(r.getStore().workTiKVIdx), exp, atomic.LoadInt32((*int32)(&r.invalidReason)), fl, c09Peers(r.meta.Peers), strings.Join(eps, "/"), c09Bk(r.getStore().buckets)))
 		return true
 	})
 	var regs []string
@@ -203,7 +214,11 @@ func c09Clone(r *router.Region) *router.Region {
 	if r.Leader != nil {
 		l = proto.Clone(r.Leader).(*metapb.Peer)
 	}
-	return &router.Region{Meta: proto.Clone(r.Meta).(*metapb.Region), Leader: l}
+	var b *metapb.Buckets
+	if r.Buckets != nil {
+		b = proto.Clone(r.Buckets).(*metapb.Buckets)
+	}
+	return &router.Region{Meta: proto.Clone(r.Meta).(*metapb.Region), Leader: l, Buckets: b}
 }
 func c09SnapGet(snap []*router.Region, key []byte) *router.Region {
 	for _, r := range snap {
@@ -237,11 +252,11 @@ func (p *c09PD) GetRegion(ctx context.Context, key []byte, opts ...opt.GetRegion
 	var r *router.Region
 	if i == len(p.snaps)-1 {
 		r, _ = p.Client.GetRegion(ctx, key, opts...)
-		r = &router.Region{Meta: r.Meta, Leader: r.Leader}
+		r = &router.Region{Meta: r.Meta, Leader: r.Leader, Buckets: r.Buckets}
 	} else {
 		r = c09Clone(c09SnapGet(p.snaps[i], key))
 	}
-	p.q("get\t%s\t%s", c09hx(key), c09Desc(r.Meta, r.Leader))
+	p.q("get\t%s\t%s", c09hx(key), c09DescB(r.Meta, r.Leader, r.Buckets))
 	return r, nil
 }
 func (p *c09PD) GetPrevRegion(ctx context.Context, key []byte, opts ...opt.GetRegionOption) (*router.Region, error) {
@@ -250,7 +265,7 @@ func (p *c09PD) GetPrevRegion(ctx context.Context, key []byte, opts ...opt.GetRe
 	var r *router.Region
 	if i == len(p.snaps)-1 {
 		r, _ = p.Client.GetPrevRegion(ctx, key, opts...)
-		r = &router.Region{Meta: r.Meta, Leader: r.Leader}
+		r = &router.Region{Meta: r.Meta, Leader: r.Leader, Buckets: r.Buckets}
 	} else {
 		r = &router.Region{}
 		if cur := c09SnapGet(p.snaps[i], key); cur != nil && len(cur.Meta.StartKey) > 0 {
@@ -261,7 +276,7 @@ func (p *c09PD) GetPrevRegion(ctx context.Context, key []byte, opts ...opt.GetRe
 			}
 		}
 	}
-	p.q("prev\t%s\t%s", c09hx(key), c09Desc(r.Meta, r.Leader))
+	p.q("prev\t%s\t%s", c09hx(key), c09DescB(r.Meta, r.Leader, r.Buckets))
 	return r, nil
 }
 func (p *c09PD) GetRegionByID(ctx context.Context, id uint64, opts ...opt.GetRegionOption) (*router.Region, error) {
@@ -269,7 +284,7 @@ func (p *c09PD) GetRegionByID(ctx context.Context, id uint64, opts ...opt.GetReg
 	var r *router.Region
 	if i == len(p.snaps)-1 {
 		r, _ = p.Client.GetRegionByID(ctx, id, opts...)
-		r = &router.Region{Meta: r.Meta, Leader: r.Leader}
+		r = &router.Region{Meta: r.Meta, Leader: r.Leader, Buckets: r.Buckets}
 	} else {
 		r = &router.Region{}
 		for _, x := range p.snaps[i] {
@@ -278,7 +293,7 @@ func (p *c09PD) GetRegionByID(ctx context.Context, id uint64, opts ...opt.GetReg
 			}
 		}
 	}
-	p.q("byid\t%d\t%s", id, c09Desc(r.Meta, r.Leader))
+	p.q("byid\t%d\t%s", id, c09DescB(r.Meta, r.Leader, r.Buckets))
 	return r, nil
 }
 func (p *c09PD) ScanRegions(ctx context.Context, s, e []byte, limit int, opts ...opt.GetRegionOption) ([]*router.Region, error) {
@@ -287,7 +302,7 @@ func (p *c09PD) ScanRegions(ctx context.Context, s, e []byte, limit int, opts ..
 	if i == len(p.snaps)-1 {
 		in, _ := p.Client.ScanRegions(ctx, s, e, limit, opts...) //nolint:staticcheck
 		for _, r := range in {
-			rs = append(rs, &router.Region{Meta: r.Meta, Leader: r.Leader})
+			rs = append(rs, &router.Region{Meta: r.Meta, Leader: r.Leader, Buckets: r.Buckets})
 		}
 	} else {
 		for _, x := range c09SnapScan(p.snaps[i], s, e, limit) {
@@ -305,7 +320,7 @@ func (p *c09PD) BatchScanRegions(ctx context.Context, ranges []router.KeyRange, 
 		// current state: mocktikv's own PD client answers
 		in, _ := p.Client.BatchScanRegions(ctx, ranges, limit, opts...)
 		for _, r := range in {
-			rs = append(rs, &router.Region{Meta: r.Meta, Leader: r.Leader})
+			rs = append(rs, &router.Region{Meta: r.Meta, Leader: r.Leader, Buckets: r.Buckets})
 		}
 		p.q("batch\t%s\t%d\t%s", c09Ranges(ranges), limit, c09Descs(rs))
 		return rs, nil
@@ -354,6 +369,8 @@ type c09Env struct {
 	seed      int64
 	opIdx     int
 	nops      int
+	bver      uint64
+	bktHeavy  bool
 	txn       bool // the cache runs behind CodecPDClient in txn mode: region keys are memcomparable-encoded at PD
 }
 
@@ -567,6 +584,9 @@ func (e *c09Env) topo() {
 	rs := e.regions()
 	r := rs[e.rng.Intn(len(rs))]
 	x := e.rng.Intn(100)
+	if e.bktHeavy && e.rng.Intn(2) == 0 {
+		x = 90
+	}
 	switch {
 	case x < 38 || len(rs) == 1 && x < 60:
 		// split inside r
@@ -589,7 +609,7 @@ func (e *c09Env) topo() {
 		p := r.meta.Peers[e.rng.Intn(len(r.meta.Peers))]
 		e.cluster.ChangeLeader(r.meta.Id, p.Id)
 		e.topoDone("leader %d -> %d", r.meta.Id, p.Id)
-	case x < 82:
+	case x < 81:
 		// add a peer on a store that has none
 		for _, s := range e.stores {
 			has := false
@@ -605,7 +625,7 @@ func (e *c09Env) topo() {
 				return
 			}
 		}
-	case x < 90:
+	case x < 88:
 		if len(r.meta.Peers) < 2 {
 			return
 		}
@@ -620,7 +640,24 @@ func (e *c09Env) topo() {
 			}
 		}
 		e.topoDone("rmpeer %d peer %d", r.meta.Id, p.Id)
-	case x < 93 && !e.realistic:
+	case x < 92:
+		// the store reports buckets for the region: usually a sorted chain inside it, sometimes stale / unsorted / outside
+		var ks [][]byte
+		if e.rng.Intn(3) > 0 {
+			ks = append(ks, r.meta.StartKey)
+		}
+		mid := e.sortedKeys(1 + e.rng.Intn(4))
+		if e.rng.Intn(6) == 0 && len(mid) > 1 {
+			mid[0], mid[len(mid)-1] = mid[len(mid)-1], mid[0]
+		}
+		ks = append(ks, mid...)
+		if e.rng.Intn(3) > 0 {
+			ks = append(ks, r.meta.EndKey)
+		}
+		e.bver++
+		e.cluster.SplitRegionBuckets(r.meta.Id, ks, e.bver)
+		e.topoDone("buckets %d v%d", r.meta.Id, e.bver)
+	case x < 94 && !e.realistic:
 		e.cluster.GiveUpLeader(r.meta.Id)
 		e.topoDone("noleader %d", r.meta.Id)
 	default:
@@ -863,6 +900,41 @@ func (e *c09Env) opSendFail(ctx *RPCContext, reload bool) {
 		return "ok"
 	})
 }
+// LocateKey(k) then KeyLocation.LocateBucket(probe) / GetBucketVersion
+func (e *c09Env) opLBucket(k, probe []byte) {
+	e.op("lbucket", []string{c09hx(k), c09hx(probe)}, func() string {
+		l, err := e.cache.LocateKey(e.bo(), k)
+		if err != nil {
+			return c09Err(err)
+		}
+		if l.Buckets == nil {
+			return fmt.Sprintf("ok %s v%d nobuckets", c09Loc(l), l.GetBucketVersion())
+		}
+		b := l.LocateBucket(probe)
+		if b == nil {
+			return fmt.Sprintf("ok %s v%d nil", c09Loc(l), l.GetBucketVersion())
+		}
+		return fmt.Sprintf("ok %s v%d %s:%s", c09Loc(l), l.GetBucketVersion(), c09hx(b.StartKey), c09hx(b.EndKey))
+	})
+}
+func (e *c09Env) opBVNM(v RegionVerID, ver uint64, keys [][]byte) {
+	e.op("bvnm", []string{c09Ver(v), c09Bk(&metapb.Buckets{Version: ver, Keys: keys})}, func() string {
+		e.cache.OnBucketVersionNotMatch(&RPCContext{Region: v}, ver, keys)
+		return "ok"
+	})
+}
+func (e *c09Env) opUBuckets(v RegionVerID, req, latest uint64) {
+	e.op("ubuckets", []string{c09Ver(v), fmt.Sprint(req), fmt.Sprint(latest)}, func() string {
+		e.cache.UpdateBucketsIfNeeded(v, req, latest)
+		for i := 0; i < 2000; i++ { // the reload runs in the background: wait for it
+			if _, busy := e.cache.inflightUpdateBuckets.Load(v.id); !busy {
+				break
+			}
+			time.Sleep(time.Millisecond)
+		}
+		return "ok"
+	})
+}
 func (e *c09Env) opCtx(v RegionVerID) *RPCContext {
 	var out *RPCContext
 	e.op("ctx", []string{c09Ver(v)}, func() string {
@@ -937,7 +1009,12 @@ func (e *c09Env) round(k []byte) bool {
 // ---------------------------------------------------------------- generators
 func (e *c09Env) lookup() {
 	x := e.rng.Intn(100)
+	if e.bktHeavy && e.rng.Intn(2) == 0 {
+		x = 0
+	}
 	switch {
+	case x < 6:
+		e.opLBucket(e.key(), e.key())
 	case x < 16:
 		e.opLocate(e.key())
 	case x < 28:
@@ -1005,10 +1082,14 @@ func (e *c09Env) cacheOp() {
 	case x < 65:
 		bits := []int32{needReloadOnAccess, needDelayedReloadPending, needDelayedReloadReady}
 		e.opFlag(r, bits[e.rng.Intn(3)])
-	case x < 75:
+	case x < 72:
 		e.opGC()
-	case x < 80:
+	case x < 74:
 		e.opClear()
+	case x < 77:
+		e.opBVNM(r.VerID(), uint64(e.rng.Intn(int(e.bver)+3)), e.sortedKeys(1+e.rng.Intn(3)))
+	case x < 80:
+		e.opUBuckets(r.VerID(), uint64(e.rng.Intn(int(e.bver)+2)), uint64(e.rng.Intn(int(e.bver)+3)))
 	case x < 84:
 		// a send failure reported for an arbitrary peer of the entry
 		e.opSendFail(&RPCContext{Region: r.VerID(), Meta: r.meta, AccessIdx: AccessIndex(e.rng.Intn(len(r.meta.Peers))), AccessMode: tiKVOnly}, e.rng.Intn(3) == 0)
@@ -1289,6 +1370,9 @@ func c09RunSeq(w *bufio.Writer, class string, seed int64, nops int) {
 		e.seqRandom(30, []float64{0, 0.25, 0.5}[e.rng.Intn(3)], false)
 	case "real":
 		e.seqRandom(30, []float64{0, 0.25, 0.5}[e.rng.Intn(3)], true)
+	case "bkt":
+		e.bktHeavy = true
+		e.seqRandom(30, []float64{0, 0.25}[e.rng.Intn(2)], true)
 	case "f07":
 		e.seqF07()
 	case "many":
@@ -1327,6 +1411,17 @@ func VerifC09Main(args []string) int {
 	w := bufio.NewWriterSize(os.Stdout, 1<<20)
 	defer w.Flush()
 	go c09Watchdog()
+	if len(args) >= 1 && args[0] == "probe-bucket" {
+		for _, tc := range [][]string{{"t", "z", "a,h,m", "u"}, {"a", "m", "p,q,z", "b"}, {"f", "m", "a,h,p,z", "g"}} {
+			loc := &KeyLocation{StartKey: []byte(tc[0]), EndKey: []byte(tc[1]), Buckets: &metapb.Buckets{Version: 1}}
+			for _, k := range strings.Split(tc[2], ",") {
+				loc.Buckets.Keys = append(loc.Buckets.Keys, []byte(k))
+			}
+			b := loc.LocateBucket([]byte(tc[3]))
+			fmt.Fprintf(w, "region [%s,%s) bucket keys [%s] LocateBucket(%s) = [%s,%s)\n", tc[0], tc[1], tc[2], tc[3], b.StartKey, b.EndKey)
+		}
+		return 0
+	}
 	if len(args) >= 1 && args[0] == "probe-mockpd" {
 		return c09ProbeMockPD(w)
 	}
@@ -1347,7 +1442,7 @@ func VerifC09Main(args []string) int {
 	plan := []struct {
 		class string
 		n     int
-	}{{"rand", 600 * scale}, {"real", 600 * scale}, {"f07", 250 * scale}, {"unit", 120 * scale}, {"many", 6 * scale}}
+	}{{"rand", 600 * scale}, {"real", 600 * scale}, {"f07", 250 * scale}, {"bkt", 150 * scale}, {"unit", 120 * scale}, {"many", 6 * scale}}
 	for ci, p := range plan {
 		for i := 0; i < p.n; i++ {
 			c09RunSeq(w, p.class, seed*1000000+int64(ci)*100000+int64(i), -1)
